@@ -238,6 +238,7 @@ pub fn plan(id: &str) -> Option<Plan> {
             engines: vec![
                 Engine { name: "transparency-readiness", salt: 1, quick: 1512, thorough: 60_000, serial: false, run: Box::new(|s, t| c20::scenario_t(s, t)) },
                 Engine { name: "listeners", salt: 2, quick: 180, thorough: 9_000, serial: false, run: Box::new(|s, t| c20::scenario_l(s, t)) },
+                Engine { name: "slow-listeners", salt: 4, quick: 2, thorough: 8, serial: false, run: Box::new(|s, t| c20::scenario_slow(s, t)) },
                 Engine { name: "engaged-readiness", salt: 3, quick: 1500, thorough: 60_000, serial: false, run: Box::new(|s, t| c20::scenario_e(s, t)) },
             ],
             extra: Some(|_t, _s| serde_json::json!({"targets": c20::targets(), "inner_kinds": ["strict-probe", "strict-probe", "pending-probe(1)", "pending-probe(3)", "ready-error", "buffer", "concurrency-limit"], "listener_layers": c20::LISTENER_LAYERS})),
